@@ -23,26 +23,37 @@ INF = H.INF
 SMALL = ["chain2", "chain3", "indep2", "indep3", "fanout", "fanin", "diamond", "one+chain2", "split2", "split2>b", "split2!>b"]
 MEDIUM = ["one+chain3", "chain2+chain2", "fanin3", "diamond+one", "a>split2>c", "split2+chain2", "split2+plain>c", "split3!>b+one", "split3>b", "chain4"]
 LARGE = ["indep4", "split2,split2>c", "split2>diamond", "chain3+b>split2", "chain6", "split4>b"]
+MEDIUM_QUICK = ["one+chain3", "chain2+chain2", "fanin3", "diamond+one", "a>split2>c", "split2+chain2", "split2+plain>c", "chain4"]
+PROBED = ["one+chain2", "fanin", "split2!>b", "chain3"]
+DELAY1 = ["chain2", "chain3", "indep2", "fanout", "fanin", "one+chain2", "split2", "split2!>b", "diamond"]
+SAMPLED = LARGE + ["diamond+one", "split3>b"]
 
 
 def tasks_exhaustive(ctx):
     t = []
     for sp in SMALL:
-        for loop in ("mirror", "real"):
-            t.append((H.Opts(sp, loop=loop, fail=99, vis=(0, INF)), 0, 1))
+        t.append((H.Opts(sp, loop="real", fail=99, vis=(0, INF)), 0, 1))
+        if ctx.thorough:
+            t.append((H.Opts(sp, loop="mirror", fail=99, vis=(0, INF)), 0, 1))
+        else:
+            for vis in ((0,), (INF,)):
+                t.append((H.Opts(sp, loop="mirror", fail=99, vis=vis), 0, 0))
+    for sp in SMALL if ctx.thorough else PROBED:
         t.append((H.Opts(sp, loop="mirror", fail=99, vis=(0, INF), probe=True), 0, 1))
-    for sp in MEDIUM:
+    for sp in MEDIUM if ctx.thorough else MEDIUM_QUICK:
         for vis in ((0,), (INF,)):
-            for loop in ("mirror", "real"):
-                t.append((H.Opts(sp, loop=loop, fail=99, vis=vis), 0, 2))
+            t.append((H.Opts(sp, loop="real", fail=99, vis=vis), 0, 2))
+            if ctx.thorough or vis == (0,):
+                t.append((H.Opts(sp, loop="mirror", fail=99, vis=vis), 0, 2))
     if ctx.thorough:
         for sp in SMALL:
             for loop in ("mirror", "real"):
-                t.append((H.Opts(sp, loop=loop, fail=99, vis=(0, 1, INF)), 0, 2))
                 t.append((H.Opts(sp, loop=loop, fail=99, vis=(0, INF), multi=True), 0, 2))
-        for sp in MEDIUM:
+        for sp in DELAY1:
             for loop in ("mirror", "real"):
-                t.append((H.Opts(sp, loop=loop, fail=99, vis=(0, INF)), 0, 3))
+                t.append((H.Opts(sp, loop=loop, fail=99, vis=(0, 1, INF)), 0, 2))
+        for sp in MEDIUM_QUICK:
+            t.append((H.Opts(sp, loop="real", fail=99, vis=(0, INF)), 0, 3))
         for sp in LARGE:
             for vis in ((0,), (INF,)):
                 t.append((H.Opts(sp, loop="real", fail=2, vis=vis), 0, 3))
@@ -50,9 +61,9 @@ def tasks_exhaustive(ctx):
 
 
 def tasks_sampled(ctx):
-    n = ctx.pick(40, 400)
+    n = ctx.pick(20, 300)
     t = []
-    for sp in LARGE + ["diamond+one", "split3>b"]:
+    for sp in SAMPLED:
         for loop in ("mirror", "real"):
             t.append((H.Opts(sp, loop=loop, fail=99, vis=(0, 1, INF), multi=True), n, 0))
     return t
@@ -68,29 +79,41 @@ def run(ctx):
         "executed, no job is started after a job it consumes failed, the aggregated error (expand_workflow_async's RuntimeError, "
         "WorkflowOutputs._from_job) names every failed job. Not covered: asyncio scheduling, the process pool, timing."
     )
+    import concurrent.futures as cf
+
     try:
+        bg = cf.ThreadPoolExecutor(1)
+        e2e = bg.submit(H.e2e_c14)  # small real runs in subprocesses, meanwhile
         dom = ctx.domain(
             "failing-subsets x completion-orders (exhaustive)",
             bound=(
-                f"workflows {SMALL} (2-4 jobs): every completion order x every subset of failing jobs x per-job lock visibility in {{seen at next observation, never seen}}, "
-                f"mirror loop, real expand_workflow_async, and mirror loop with has_errored/all_failed/done probes; workflows {MEDIUM} (4-6 jobs): every order x every failing subset with "
-                "lock visibility all-seen / none-seen"
-                + (f"; thorough adds visibility delay 1, several completions per observation, per-job visibility for the medium set, and {LARGE} with <= 2 failures" if ctx.thorough else "")
+                f"workflows {SMALL} (2-4 jobs): every completion order x every subset of failing jobs x per-job lock visibility in {{seen at next observation, never seen}} "
+                f"under the real expand_workflow_async (scripted worker), and under the harness' mirror of the loop "
+                + ("with the same per-job visibility" if ctx.thorough else "with visibility all-seen / none-seen")
+                + f"; the same with has_errored/all_failed/done read on every node after every observation for {SMALL if ctx.thorough else PROBED}; "
+                f"workflows {MEDIUM if ctx.thorough else MEDIUM_QUICK} (4-6 jobs): every order x every failing subset with lock visibility all-seen / none-seen"
+                + (
+                    f"; several completions between two observations for {SMALL}; visibility delay in {{0, 1, never}} for {DELAY1}; per-job visibility for {MEDIUM_QUICK}; {LARGE} with <= 2 failing jobs"
+                    if ctx.thorough
+                    else ""
+                )
             ),
             rule="one case = one history (workflow, loop, list of script choices); distinct by that key; non-trivial = at least one job fails",
             exhaustive=True,
         )
-        st = H.run_tasks(ctx, "C14", dom, tasks_exhaustive(ctx))
         dom2 = ctx.domain(
             "failing-subsets x completion-orders (sampled, larger workflows)",
-            bound=f"workflows {LARGE + ['diamond+one', 'split3>b']} (4-10 jobs), random scripts: any failing subset, visibility delay in {{0,1,never}}, several completions per observation; {ctx.pick(40, 400)} scripts per workflow and loop, seed {ctx.seed}",
+            bound=f"workflows {SAMPLED} (4-10 jobs), random scripts: any failing subset, visibility delay in {{0,1,never}}, several completions per observation; {ctx.pick(20, 300)} scripts per workflow and loop, seed {ctx.seed}",
             rule="one case = one random script; distinct by choice list; non-trivial = at least one job fails",
             exhaustive=False,
         )
-        st2 = H.run_tasks(ctx, "C14", dom2, tasks_sampled(ctx))
+        st, st2 = H.run_domains(ctx, "C14", [(dom, tasks_exhaustive(ctx), False), (dom2, tasks_sampled(ctx), False)])
         for k in sorted(set(st) | set(st2)):
-            ctx.note(f"{k}: {st.get(k, 0) + st2.get(k, 0)}")
-        for line in H.e2e_c14():
+            if isinstance(st.get(k, st2.get(k)), dict):
+                ctx.note(f"{k}: exhaustive {st.get(k, {})}; sampled {st2.get(k, {})}")
+            else:
+                ctx.note(f"{k}: {st.get(k, 0) + st2.get(k, 0)}")
+        for line in e2e.result():
             ctx.note("end-to-end replay aid (real workers, timing dependent, NOT part of the verdict): " + line)
     finally:
         H.cleanup()
